@@ -102,7 +102,7 @@ def do_notations(names, rng):
     return [list(names), ", ".join(names), ",".join(names), " , ".join(names)]
 
 
-def gen_tasks(rng, n_tasks=3, allow_undefined=False, allow_reserved=False):
+def gen_tasks(rng, n_tasks=3, allow_undefined=False, allow_reserved=False, allow_dup=False, allow_ws=False):
     names = ["t%d" % i for i in range(1, n_tasks + 1)]
     if allow_reserved and rng.random() < 0.3:
         names[-1] = rng.choice(["noop", "fail", "retry", "continue"])
@@ -114,6 +114,8 @@ def gen_tasks(rng, n_tasks=3, allow_undefined=False, allow_reserved=False):
         for _ in range(rng.choice([0, 1, 1, 2])):
             k = rng.choice([1, 1, 2])
             targets = rng.sample(pool, k)
+            if allow_dup and k == 2 and rng.random() < 0.35:
+                targets = [targets[0], targets[0]]        # the same target named twice in one `do`
             tr = {}
             w = rng.choice(WHENS)
             if w:
@@ -123,7 +125,13 @@ def gen_tasks(rng, n_tasks=3, allow_undefined=False, allow_reserved=False):
             if rng.random() < 0.15 and (tr.get("publish") or tr.get("when")):
                 pass  # `do` omitted: means continue
             else:
-                tr["do"] = rng.choice(do_notations(targets, rng))
+                if allow_dup and len(set(targets)) < len(targets):
+                    tr["do"] = rng.choice([", ".join(targets), ",".join(targets)])   # only the string form admits it
+                else:
+                    tr["do"] = rng.choice(do_notations(targets, rng))
+                if allow_ws and isinstance(tr["do"], list) and rng.random() < 0.3:
+                    # a quoted list-form name with a blank is a different (undefined) name: taken as written
+                    tr["do"] = [x + " " if rng.random() < 0.5 else " " + x for x in tr["do"]]
             trs.append(tr)
         if trs:
             td["next"] = trs
@@ -218,8 +226,11 @@ class DefinitionReaders(Unit):
                         tasks = dict(tasks, __error=repr(ex))
                     ctx.oblige("C14.spec.next_prev_start", ok, None, {"definition": tasks})
             elif split == "compose":
-                for tasks in family(seed * 7 + 2, n):
+                fam = family(seed * 7 + 2, n) + family(seed * 7 + 5, n // 3, allow_dup=True)
+                for tasks in fam:
                     info = {"definition": tasks}
+                    has_dup = any(isinstance(tr.get("do"), str) and len(norm_do(tr["do"])) != len(set(norm_do(tr["do"])))
+                                  for td in tasks.values() for tr in td.get("next") or [])
                     try:
                         g = native_composer.WorkflowComposer.compose(wf(tasks))
                         nodes, edges, barriers, retries, roots = graph_view(g)
@@ -246,6 +257,8 @@ class DefinitionReaders(Unit):
                     e1 = sorted((s, d, k, json.dumps(a, sort_keys=True)) for s, d, k, a in g._graph.edges(keys=True, data=True))
                     e2 = sorted((s, d, k, json.dumps(a, sort_keys=True)) for s, d, k, a in back._graph.edges(keys=True, data=True))
                     ctx.oblige("C14.graph.roundtrip", json.dumps(back.serialize(), sort_keys=True) == ser and e1 == e2, None, info)
+                    if has_dup:
+                        continue      # a list `do` must have unique names: no long form to compare with
                     lf = longform(tasks)
                     g3 = native_composer.WorkflowComposer.compose(wf(lf))
                     same = json.dumps(g3.serialize(), sort_keys=True) == ser
@@ -255,7 +268,8 @@ class DefinitionReaders(Unit):
                         same = False
                     ctx.oblige("C20.shorthand.same_graph", same, None, info)
             else:
-                for tasks in family(seed * 7 + 3, n, allow_undefined=True, allow_reserved=True):
+                for tasks in family(seed * 7 + 3, n, allow_undefined=True, allow_reserved=True) + \
+                        family(seed * 7 + 4, n // 2, allow_undefined=True, allow_ws=True):
                     info = {"definition": tasks}
                     spec = wf(tasks)
                     try:
